@@ -58,6 +58,98 @@ func GenC14(r *RNG) *SrvPlan {
 	return p
 }
 
+// GenC14Padded: uploads made of frames that are almost all padding (3 octets of data, 255 of padding). Padding is
+// charged to both windows like data (RFC 7540 6.1, 6.9.1); a receiver that hands back the data octets only loses 256
+// octets per frame, and a sender that keeps its books is starved once the connection window's worth has gone that way.
+func GenC14Padded(r *RNG) *SrvPlan {
+	p := &SrvPlan{Family: "c14-server-padded"}
+	p.Srv = SrvCfg{MaxConcurrentStreams: 4, PingInterval: -1, MaxRequestBodySize: 8 << 20}
+	p.Peer = PeerCfg{InitialWindow: 1 << 20, MaxFrameSize: -1, HeaderTableSize: -1, AutoWindow: true, ConnWindowBoost: 1 << 24}
+	n := 1 + r.Intn(2)
+	// on the wire: 1.15 – 1.4 times the connection receive window the server advertises (65535 + 4 MiB)
+	wire := (65535 + 4<<20) * (115 + r.Intn(26)) / 100
+	frames := wire / 259 / n
+	dataLen := Pick(r, 1, 3)
+	pad := 255
+	for i := 0; i < n; i++ {
+		req := &Req{Method: "POST", Scheme: "https", Path: fmt.Sprintf("/pad/%d", i), Authority: "example.com", Fields: []HF{{"x-rid", fmt.Sprint(i)}}, Body: genBody(i, frames*dataLen)}
+		fields := []HF{{":method", "POST"}, {":scheme", "https"}, {":path", req.Path}, {":authority", req.Authority}, {"x-rid", fmt.Sprint(i)}}
+		l := Lane{Name: fmt.Sprintf("pad%d", i), Req: req, OpensStream: true, After: -1,
+			Resp: &Resp{Status: 200, Mode: "buffered", BodyLen: 3, ErrAt: -1, Fields: []HF{{"x-rid", fmt.Sprint(i)}}}}
+		l.Ops = append(l.Ops, Op{Kind: "headers", Fields: fields, Pad: -1, TableSize: -1})
+		for k := 0; k < frames; k++ {
+			l.Ops = append(l.Ops, Op{Kind: "data", Len: dataLen, Pad: pad, EndStream: k == frames-1, TableSize: -1})
+		}
+		p.Lanes = append(p.Lanes, l)
+	}
+	p.GateMode = "open"
+	p.Mask = []string{"net"}
+	p.PoolPol = r.Intn(2)
+	p.Strategy = genStrategy(r)
+	p.Strategy.Stay = 0.95
+	p.SelSeed = r.Uint64()
+	p.MaxSteps = 1500000
+	return p
+}
+
+// GenC14Refused: many rounds of DATA the server refuses (after the peer's own END_STREAM while the handler is still
+// running; past MaxRequestBodySize; on a stream the server has just reset), a frame's worth each, then an ordinary
+// upload. Refused DATA has been paid for out of the connection window like any other (RFC 7540 6.9): a receiver that
+// does not hand it back loses 16 KiB per round, and after the connection window's worth the upload cannot be sent.
+func GenC14Refused(r *RNG) *SrvPlan {
+	p := &SrvPlan{Family: "c14-server-refused"}
+	mcs := 16
+	p.Srv = SrvCfg{MaxConcurrentStreams: mcs, PingInterval: -1, MaxRequestBodySize: 2 << 20}
+	p.Peer = PeerCfg{InitialWindow: 1 << 20, MaxFrameSize: -1, HeaderTableSize: -1, AutoWindow: true, ConnWindowBoost: 1 << 24}
+	kind := Pick(r, "after-end-stream", "after-end-stream", "mixed")
+	rounds := 280 + r.Intn(60)
+	hdrs := func(rid int, end bool, extra ...HF) Op {
+		f := []HF{{":method", "POST"}, {":scheme", "https"}, {":path", fmt.Sprintf("/x/%d", rid)}, {":authority", "example.com"}, {"x-rid", fmt.Sprint(rid)}}
+		return Op{Kind: "headers", Fields: append(f, extra...), EndStream: end, Pad: -1, TableSize: -1}
+	}
+	for i := 0; i < rounds; i++ {
+		rid := len(p.Lanes)
+		l := Lane{Name: fmt.Sprintf("bad%d", rid), OpensStream: true, After: -1, Offender: "c14-refused", Resp: &Resp{Status: 200, Mode: "buffered", BodyLen: 1, ErrAt: -1}}
+		if rid >= mcs {
+			l.After = -3 // every earlier stream is over (its handler included): a slot is free
+			if rid%mcs != 0 {
+				l.After = rid - 1
+			}
+		}
+		k := kind
+		if kind == "mixed" {
+			k = Pick(r, "after-end-stream", "after-reset")
+		}
+		switch k {
+		case "after-end-stream":
+			// END_STREAM on HEADERS, handler held by its gate, then a full frame of DATA
+			l.Ops = []Op{hdrs(rid, true), {Kind: "data", Len: 16384, Pad: -1, TableSize: -1}}
+		case "after-reset":
+			// content-length that does not match: the server resets the stream at END_STREAM; one more frame is in flight
+			l.Ops = []Op{hdrs(rid, false, HF{"content-length", "7"}), {Kind: "data", Len: 5, Pad: -1, EndStream: true, TableSize: -1}, {Kind: "data", Len: 16384, Pad: -1, TableSize: -1}}
+		}
+		p.Lanes = append(p.Lanes, l)
+	}
+	// the upload that must still go through
+	rid := len(p.Lanes)
+	req := &Req{Method: "POST", Scheme: "https", Path: fmt.Sprintf("/up/%d", rid), Authority: "example.com", Fields: []HF{{"x-rid", fmt.Sprint(rid)}}, Body: genBody(rid, 1<<20)}
+	up := Lane{Name: "upload", Req: req, OpensStream: true, After: -3,
+		Resp: &Resp{Status: 200, Mode: "buffered", BodyLen: 3, ErrAt: -1, Fields: []HF{{"x-rid", fmt.Sprint(rid)}}}}
+	up.Ops = append(up.Ops, Op{Kind: "headers", Fields: []HF{{":method", "POST"}, {":scheme", "https"}, {":path", req.Path}, {":authority", req.Authority}, {"x-rid", fmt.Sprint(rid)}}, Pad: -1, TableSize: -1})
+	for rest := 1 << 20; rest > 0; rest -= 16384 {
+		up.Ops = append(up.Ops, Op{Kind: "data", Len: 16384, Pad: -1, EndStream: rest == 16384, TableSize: -1})
+	}
+	p.Lanes = append(p.Lanes, up)
+	p.GateMode = "after-rst"
+	p.Mask = []string{"net"}
+	p.PoolPol = r.Intn(2)
+	p.Strategy = genStrategy(r)
+	p.Strategy.Stay = 0.9
+	p.SelSeed = r.Uint64()
+	p.MaxSteps = 1500000
+	return p
+}
+
 // c14Online: no WINDOW_UPDATE with increment 0, no send window above 2^31-1 in the sender's ledger.
 func c14Online(w *SrvWorld) *Violation {
 	for _, f := range w.winUpdates[w.wuChecked:] {
@@ -89,8 +181,8 @@ func c14Final(w *SrvWorld) *Violation {
 		}
 		if !l.sentAll {
 			which := "stream"
-			if w.sendConnWin <= 0 {
-				which = "connection"
+			if w.sendConnWin <= 0 || w.sendConnWin < l.sendWin {
+				which = "connection" // the smaller of the two windows is the one that holds the sender up
 			}
 			return &Violation{Property: "C14", Rule: "sender-starved", Sig: "sender-starved/" + which,
 				Detail: fmt.Sprintf("upload %d (stream %d) is stuck at byte %d of %d at quiescence: connection send window %d, stream send window %d; the receiver has not returned the credit", i, l.id, l.bodyOff, len(l.lane.Req.Body), w.sendConnWin, l.sendWin)}
@@ -111,9 +203,5 @@ func c14Final(w *SrvWorld) *Violation {
 
 // c14Nontrivial: total DATA sent exceeded the receiver's connection window, i.e. progress depended on returned credit.
 func c14Nontrivial(w *SrvWorld) bool {
-	sent := 0
-	for _, l := range w.lanes {
-		sent += l.bodyOff
-	}
-	return sent > 65535+4<<20
+	return w.fcSent > 65535+4<<20
 }
